@@ -213,6 +213,22 @@ void vp_c09_positions(int x0, int y0, vp_obs& o)
   m.c(a, b);
   o.x = a; o.y = b; o.ret = 0;
 }
+struct vp_M15 {
+  MAKE_MOCK15(w, int(int&, int&, int&, int&, int&, int&, int&, int&, int&, int&, int&, int&, int&, int&, int&));
+};
+struct vp_obs15 { int v[15]; int ret; };
+void vp_c09_arity15(int b, vp_obs15& o)
+{
+  using trompeloeil::_;
+  vp_M15 m;
+  int a1 = b, a2 = b, a3 = b, a4 = b, a5 = b, a6 = b, a7 = b, a8 = b, a9 = b, a10 = b, a11 = b, a12 = b, a13 = b, a14 = b, a15 = b;
+  REQUIRE_CALL(m, w(_, _, _, _, _, _, _, _, _, _, _, _, _, _, _))
+    .SIDE_EFFECT((_1 += 1, _2 += 2, _3 += 3, _4 += 4, _5 += 5, _6 += 6, _7 += 7, _8 += 8, _9 += 9, _10 += 10, _11 += 11, _12 += 12, _13 += 13, _14 += 14, _15 += 15))
+    .RETURN(_15);
+  o.ret = m.w(a1, a2, a3, a4, a5, a6, a7, a8, a9, a10, a11, a12, a13, a14, a15);
+  o.v[0] = a1; o.v[1] = a2; o.v[2] = a3; o.v[3] = a4; o.v[4] = a5; o.v[5] = a6; o.v[6] = a7; o.v[7] = a8; o.v[8] = a9; o.v[9] = a10;
+  o.v[10] = a11; o.v[11] = a12; o.v[12] = a13; o.v[13] = a14; o.v[14] = a15;
+}
 void vp_build_objects()
 {
   vp_M m; trompeloeil::sequence s;
